@@ -71,7 +71,9 @@ def norm(x):
     """plain comparable structure: numpy -> python, tuples -> lists, NaN -> 'nan'"""
     import numpy
 
-    if isinstance(x, (str, bytes, bool)) or x is None:
+    if isinstance(x, str):
+        return x if type(x) is str else str(x)  # numpy.str_ (names produced by numpy.take) is a str
+    if isinstance(x, (bytes, bool)) or x is None:
         return x.decode("latin1") if isinstance(x, bytes) else x
     if isinstance(x, numpy.ndarray):
         return norm(x.tolist())
@@ -1115,7 +1117,9 @@ def profile_cases(draw):
     for i in range(nrows):
         row = [draw(st.sampled_from(extra)) if draw(st.integers(0, 5)) == 0 else draw(st.sampled_from(alpha)) for _ in range(L)]
         rows[f"s{i}"] = "".join(row)
-    case.update(moltype=mt, rows=rows, array_align=draw(st.booleans()), motif_length=draw(st.sampled_from([1, 1, 1, 2, 3])), include_ambiguity=draw(st.booleans()),
+    # word alphabets of proteins have 400 / 8000 members: single residues only
+    ml = 1 if mt == "protein" else draw(st.sampled_from([1, 1, 1, 2, 3]))
+    case.update(moltype=mt, rows=rows, array_align=draw(st.booleans()), motif_length=ml, include_ambiguity=draw(st.booleans()),
                 allow_gap=draw(st.booleans()), exclude_unobserved=draw(st.booleans()))
     return case
 
@@ -1193,8 +1197,19 @@ def _profile_round_trips(s: Soft, sig: str, obj, what: str, routes=PROFILE_ROUTE
     return want
 
 
+class _NoProfile(Exception):
+    pass
+
+
 def _build_profile(case):
     """the object named by the case; exceptions of the producing methods propagate (caller classifies)"""
+    obj = _build_profile_(case)
+    if obj is None:
+        raise _NoProfile
+    return obj
+
+
+def _build_profile_(case):
     import numpy
 
     from cogent3 import make_aligned_seqs
@@ -1234,7 +1249,8 @@ def _build_profile(case):
     if source == "freqs":
         return aln.counts_per_pos(**kw).to_freq_array(pseudocount=pc)
     if source == "freqs-from-seqs":
-        return aln.counts_per_seq(**skw).to_freq_array(pseudocount=pc)
+        counts = aln.counts_per_seq(**skw)
+        return None if counts is None else counts.to_freq_array(pseudocount=pc)
     if source == "motif_totals":
         return aln.counts_per_pos(**kw).motif_totals()
     counts = aln.counts_per_pos(**kw)
@@ -1315,6 +1331,9 @@ def exec_profile(case) -> Soft:
         with warnings.catch_warnings():
             warnings.simplefilter("ignore")  # 0/0 rows of frequency arrays are NaN by design
             obj = _build_profile(case)
+    except _NoProfile:
+        s.cls("construct-refused:None")  # counts_per_seq returns None when no motif was observed
+        return s
     except HarnessError:
         raise
     except Exception as e:  # noqa: BLE001
